@@ -41,7 +41,7 @@ def _task(args):
                 path=[[a, v] for (_, a, v) in path])
 
 
-def run(rep, worlds, max_paths=None, maxlen=12, seed=0, procs=16, tlc_kw=None, edge_filter=None):
+def run(rep, worlds, max_paths=None, maxlen=12, seed=0, procs=16, tlc_kw=None, edge_filter=None, probes=None):
     """worlds: list of (family, eager, dask, checknans).  Adds TLC runs, replay
     counts and tagged findings to the report; returns the list of findings
     [(prop, clause, what, scenario)] for *all* properties."""
@@ -72,10 +72,13 @@ def run(rep, worlds, max_paths=None, maxlen=12, seed=0, procs=16, tlc_kw=None, e
         g = graphs[gk]
         paths, unc = g.cover(maxlen, random.Random(rng.random()), max_paths=max_paths)
         key = (fam, eager, daskin, cn, seed)
+        nprobe = probes if probes is not None else (35 if max_paths is not None else 175)
+        hist = g.sandwiches(random.Random(rng.random()), nprobe, maxlen)
+        paths = list(paths) + hist
         for i, p in enumerate(paths):
             tasks.append((key, i, p, i))
         rep.extra.setdefault("cover", {})[f"{fam}/{int(eager)}{int(daskin)}{int(cn)}"] = dict(
-            paths=len(paths), edges_total=g.nedges, edges_uncovered=unc)
+            paths=len(paths), history_probes=len(hist), edges_total=g.nedges, edges_uncovered=unc)
     rng.shuffle(tasks)
     findings = []
     t0 = time.time()
